@@ -212,7 +212,7 @@ func c14Dedup(c *Check, P string) {
 	if c.Use(P+".O2", dupM, "Deduplicator.IsDuplicate") {
 		var kf []ssa.CallInstruction
 		for _, cl := range CallsIn(dupM) {
-			if !cl.Common().IsInvoke() && cl.Common().StaticCallee() == nil && AllOrigins(cl.Common().Value, exportedFieldLoad("KeyFactory")) {
+			if !cl.Common().IsInvoke() && CalleeFn(cl.Common()) == nil && AllOrigins(cl.Common().Value, exportedFieldLoad("KeyFactory")) {
 				kf = append(kf, cl)
 			}
 		}
@@ -239,7 +239,7 @@ func c14Dedup(c *Check, P string) {
 		I := m.Inner
 		var dcalls []ssa.CallInstruction
 		for _, cl := range CallsIn(I) {
-			if cl.Common().StaticCallee() == dupM {
+			if CalleeFn(cl.Common()) == dupM {
 				dcalls = append(dcalls, cl)
 			}
 		}
@@ -307,7 +307,7 @@ func c14Dedup(c *Check, P string) {
 	}
 	var dcalls []ssa.CallInstruction
 	for _, cl := range CallsIn(pub) {
-		if cl.Common().StaticCallee() == dupM {
+		if CalleeFn(cl.Common()) == dupM {
 			dcalls = append(dcalls, cl)
 		}
 	}
